@@ -94,3 +94,16 @@ Theorem C01_collation_equal_sortkeys_refuted :
   outs KCollation d14_ops = [OUnit; OUnit; OAbsent; OAbsent; OSize 2; OSeq [] 0].
 Proof. exact collation_equal_sortkeys_refuted. Qed.
 Print Assumptions C01_collation_equal_sortkeys_refuted.
+
+(* the regenerated tie of the read-only descent: the Search methods of trees.go / collation.go, translated from
+   the Go AST on every run (Gen/TreeGen.v, go/cmd/srcfacts/translate_tree.go; vocabulary Model/GoTree.v), ARE
+   Model.Tree.search on the tree a raw tree stands for: no panic, GFuel exactly where the model reports SFuel *)
+From GoArt Require Import Model.PoolTree Proofs.PoolTreeFacts Model.GoTree Gen.TreeGen Proofs.TranslateTreeFacts.
+Theorem C01_regenerated_alpha_search : forall fuel t keyS, xtwf t -> isbytes keyS = true ->
+  g_alpha_search fuel (Some t) keyS = gres_of_sres (Tree.search fuel (tabs t) keyS keyS 0).
+Proof. exact gen_alpha_search_model. Qed.
+Print Assumptions C01_regenerated_alpha_search.
+Theorem C01_regenerated_collation_search : forall fuel t keyS colKey, xtwf t -> isbytes colKey = true ->
+  g_collation_search fuel (Some t) keyS colKey = gres_of_sres (Tree.search fuel (tabs t) keyS colKey 0).
+Proof. exact gen_collation_search_model. Qed.
+Print Assumptions C01_regenerated_collation_search.
